@@ -235,6 +235,7 @@ func (dq *Deque[T]) waitPushAfter(ctx context.Context, it T, afterGetter func() 
 		case <-ctx.Done():
 			return ctx.Err()
 		default:
+			verifAt("pubsub.wait.before-cond-wait")
 			cond.Wait()
 		}
 
@@ -468,6 +469,7 @@ func (it *element[T]) wait(ctx context.Context, direction dqDirection) error {
 		case <-ctx.Done():
 			return ctx.Err()
 		default:
+			verifAt("pubsub.wait.before-cond-wait")
 			cond.Wait()
 		}
 	}
